@@ -249,7 +249,7 @@ def rec_c20(table, ng, nm, subjects, workdir: Path, perm, meta=None) -> dict:
 
     try:
         import warnings
-        with quiet(), warnings.catch_warnings():
+        with quiet(), warnings.catch_warnings(), drive.time_limit(240):
             warnings.simplefilter("ignore")
             write(workdir / "t.tsv", range(ns))
             st = Panoptica_Statistic.from_file(str(workdir / "t.tsv"))
